@@ -447,7 +447,9 @@ impl Prop for C12 {
                         None => return,
                     };
                     let want = w.actual(path, *localized).and_then(|actual| top_layer(&w.snaps, &actual, |_| true).map(|(i, _)| std::path::Path::new(&w.sb.layers[i]).join(&actual)));
-                    if !cx.check(res == want, "resolve-searches-top-down", || format!("{name}: resolve returned {res:?}, expected {want:?}")) {
+                    // the same file, however the path is spelled
+                    let canon = |p: &Option<std::path::PathBuf>| p.as_ref().map(|p| std::fs::canonicalize(p).unwrap_or_else(|_| p.clone()));
+                    if !cx.check(canon(&res) == canon(&want), "resolve-searches-top-down", || format!("{name}: resolve returned {res:?}, expected {want:?}")) {
                         return;
                     }
                 }
